@@ -959,9 +959,15 @@ class Term(Container):
         def get_perms(*space_perms):
             for perms in chain.from_iterable(space_perms):
                 yield perms
-            if len(space_perms) > 1:  # form the product
-                for perm_tpl in product(*space_perms):
-                    yield PermutationProduct(chain.from_iterable(perm_tpl))
+            # form the products of the permutations of different spaces
+            # (of all subsets of the spaces: a product might be a symmetry
+            #  although it involves no permutation of one of the spaces)
+            for n_spaces in range(2, len(space_perms) + 1):
+                for subset in combinations(space_perms, n_spaces):
+                    for perm_tpl in product(*subset):
+                        yield PermutationProduct(
+                            chain.from_iterable(perm_tpl)
+                        )
 
         if only_contracted and only_target:
             raise Inputerror("Can not set only_contracted and only_target "
